@@ -4,7 +4,7 @@ import ApdVerif.Lemmas.C15Lemmas
 # C15 — Cmp is the exact numeric order and CmpTotal is the documented total order
 -/
 namespace Apd.Props
-open Apd
+open Apd Apd.C15L
 
 /-- Decimal.Cmp returns the sign of the exact difference, for all non-NaN operands, however far
 apart exponents and digit counts are (all three paths of the code). -/
